@@ -184,7 +184,8 @@ Definition Percent_operators_stmt : Prop :=
   (Trunc_rem in_i64 op_mod_l) /\
   (Trunc_rem in_i32 op_mod_i) /\
   (Trunc_rem in_i16 op_mod_Ts) /\
-  (Trunc_rem in_d53 op_mod_d).
+  (Trunc_rem in_d53 op_mod_d) /\
+  (Trunc_rem in_f24 op_mod_Tf).
 Lemma percent_operators : Percent_operators_stmt.
 Proof.
   unfold Percent_operators_stmt. repeat apply conj.
@@ -200,6 +201,7 @@ Proof.
   - exact op_mod_i_tr.
   - exact op_mod_Ts_tr.
   - exact op_mod_d_tr.
+  - exact op_mod_Tf_tr.
 Qed.
 
 (* int64_t %(uint64_t), int32_t %(uint32_t), int16_t %(uint16_t): the truncated remainder is returned whenever the return type can represent it *)
@@ -234,4 +236,30 @@ Proof.
   - exact dom_modin_er.
   - exact dom_divmod_eucl.
   - exact dom_quoRem_eucl.
+Qed.
+
+(* the same three overloads for EVERY divisor of their type: the result is the truncated remainder converted to the return
+   type by the C narrowing conversion (two's complement); the header documents the value r, the return type fixes how an r
+   that does not fit comes back *)
+Definition Percent_narrow_wrap_stmt : Prop :=
+  (forall n d, in_u64 d -> d <> 0 -> op_mod_ul n d = to_i64 (Z.rem n d)) /\
+  (forall n d, in_u32 d -> d <> 0 -> op_mod_u n d = to_i32 (Z.rem n d)) /\
+  (forall n d, in_u16 d -> d <> 0 -> op_mod_us n d = to_i16 (Z.rem n d)).
+Lemma percent_narrow_wrap : Percent_narrow_wrap_stmt.
+Proof. unfold Percent_narrow_wrap_stmt. repeat apply conj. - exact op_mod_ul_wrap. - exact op_mod_u_wrap. - exact op_mod_us_wrap. Qed.
+
+(* double operator%(double l), l = K / 2^s any dyadic (every double is one) with integer part t = trunc(l), 1 <= |t| < 2^64:
+   the result is the double nearest to the int64_t the uint64_t overload returns for |t|, i.e. to (int64_t)(n rem t);
+   for |l| <= 2^63 that is the truncated remainder rounded to double, for |l| <= 2^53 the remainder itself.
+   round53 (int64_t -> double) is a multiple of the last-place unit at most half a unit away (ties: even, tested only). *)
+Definition Percent_double_all_stmt : Prop :=
+  Percent_double_stmt /\
+  (forall n d, d <> 0 -> Z.abs d < W64 -> op_mod_d n d = round53 (to_i64 (Z.rem n d))) /\
+  (forall n K, Z.quot K 16 <> 0 -> Z.abs (Z.quot K 16) < W64 -> op_mod_dx n K = round53 (to_i64 (Z.rem n (Z.quot K 16)))) /\
+  (forall z, Z.abs z <= 9007199254740992 -> round53 z = z) /\
+  Round53_nearest_stmt.
+Lemma percent_double_all : Percent_double_all_stmt.
+Proof.
+  unfold Percent_double_all_stmt. repeat apply conj.
+  - exact percent_double. - exact op_mod_d_wrap. - exact op_mod_dx_wrap. - exact round53_small. - exact round53_nearest.
 Qed.
